@@ -176,7 +176,7 @@ func requestMutations(fn *ssa.Function) []requestMutation {
 func runC02(c *Ctx) {
 	p := c.Progs["mod"]
 	c.Rule("C02.H", "hop-by-hop tables exact; request-side deletion guarded by the predicate on the same name", 2)
-	c.Rule("C02.W", "who-may-write the forwarded request: every mutation site is in the frozen table; plain single-host reverse proxy; the replayed request has no peer address", 13)
+	c.Rule("C02.W", "who-may-write the forwarded request: every mutation site is in the frozen table; plain single-host reverse proxy; the replayed request has no peer address; the session handler re-adds the client's cookies as sent", 17)
 	c.Rule("C02.I", "identity of the forwarded request object, private parse reader, reply body lifetime", 6)
 	c.Rule("C02.T", "no non-transparent handler in the pass-through chain", 6)
 
@@ -494,6 +494,10 @@ func runC02(c *Ctx) {
 	}
 
 	ruleReplayedRequestHasNoPeer(c, p, "C02.W")
+	// with session tracking on, the client's own cookies are re-added as the client sent them
+	// (= C10.R): a de-duplication that keeps the jar's copy of a cookie replaces a value the
+	// client sent by one the backend set earlier
+	c.Borrow(runC10, "C10.R", "C02.W", func(k string) bool { return strings.HasPrefix(k, "restore:") })
 
 	// ---- C02.T
 	ruleTransparentChain(c, p, "C02.T")
